@@ -23,7 +23,7 @@ inductive Act (ρ : Type)
   | check            -- read the `done` flag (possibly stale); exit when it is seen set
   | add (r : ρ)      -- `rels.write().unwrap().add(r)`
   | publish          -- completion check: read the store under the read lock, maybe set `done`
-  deriving Repr
+  deriving Repr, DecidableEq
 
 /-- a worker's program: for each work unit, the relations it finds (an input: which relations
 a polynomial yields is number theory, not scheduling) -/
